@@ -100,6 +100,18 @@ def run_world(world, tier="quick", timeout=120.0):
         viol.extend(res["viol"])
         viol.extend(runner.compare_outcomes(world, [results[0], res]))
         harness.extend(res["errors"])
+    ncold = 0
+    if world.get("cold") and len(results) > 2:
+        # cold-start variant: the interleaved pass again, in a fresh interpreter where the lazily imported compute
+        # modules are first imported by the racing threads
+        ps = dict(passes[2], name="Pcold")
+        cres = runner.run_world_pass_cold(world, ps, timeout=timeout + 60)
+        ncold = 1
+        viol.extend(v for v in cres["viol"] if v["inv"] != "I1" or not v["aspect"].startswith("global:"))
+        viol.extend(runner.compare_outcomes(world, [results[0], results[1], cres]))
+        harness.extend(cres["errors"])
+        if cres["stall"]:
+            harness.append(f"stall in Pcold: {cres['stall']}")
     p0 = results[0]
     p2 = results[2] if len(results) > 2 else None
     st = p0["stats"]
@@ -121,6 +133,7 @@ def run_world(world, tier="quick", timeout=120.0):
         "raised_in_dispatch": p0.get("raised_in_dispatch", []),
         "variants": p0.get("variants", []),
         "iso": len(iso_res),
+        "extra": {"cold_start_passes": ncold},
     }
     stats["nontrivial"] = bool(stats["switches_inop"] or sum(st["faults_fired"].values()) or st["mut_ops"])
     out = {"viol": viol, "stats": stats, "harness": harness}
